@@ -482,11 +482,189 @@ impl Case for OomCase {
     }
 }
 
+/// A refused call (wrong argument count, undefined function) inside a FOR loop or a subroutine:
+/// the error is the documented one and the call leaves nothing behind, so the loop / subroutine is
+/// resumed by hand (direct NEXT / RETURN) exactly as after a STOP at the same place (twin run).
+#[derive(Clone)]
+struct RefusedCallCase {
+    /// program lines; `{}` in one of them marks the refused statement
+    lines: Vec<String>,
+    bad: String,
+    expect: String,
+    resume: Vec<String>,
+    sched_variant: usize,
+    entropy: u64,
+}
+
+impl RefusedCallCase {
+    fn program(&self, stmt: &str) -> Vec<String> {
+        self.lines.iter().map(|l| l.replace("{}", stmt)).collect()
+    }
+}
+
+impl Case for RefusedCallCase {
+    fn execute(&self) -> Verdict {
+        let mut v = Verdict::default();
+        let sched = |k: usize| crate::props::c01::sched_of(self.sched_variant + k, 7);
+        let mut w = World::booted(sched(0), self.entropy, false);
+        enter_program(&mut w, &self.program(&self.bad));
+        let mut t = World::booted(sched(1), self.entropy, false);
+        enter_program(&mut t, &self.program("STOP"));
+        let mut fail = None;
+        let o = w.line("RUN", &LineIo::budget(5000));
+        let a = tokens(&w.events[o.ev_start..o.ev_end]);
+        let o2 = t.line("RUN", &LineIo::budget(5000));
+        let b = tokens(&t.events[o2.ev_start..o2.ev_end]);
+        let bad_line = self.lines.iter().find(|l| l.contains("{}")).and_then(|l| l.split(' ').next()).unwrap_or("?").to_string();
+        let expect = Tok::Err(format!("{} IN {}", self.expect, bad_line));
+        if w.fatal.is_none() && t.fatal.is_none() {
+            let mut want = b.clone();
+            want.push(expect.clone());
+            if a != want {
+                fail = Some(Violation {
+                    key: "C10:refused-call:report".into(),
+                    detail: format!("RUN with `{}`: {} (the STOP twin plus {:?} is 'expected')", self.bad, first_diff(&want, &a), expect),
+                });
+            }
+        }
+        for r in &self.resume {
+            if fail.is_some() || w.fatal.is_some() || t.fatal.is_some() {
+                break;
+            }
+            let o = w.line(r, &LineIo::budget(5000));
+            let a = tokens(&w.events[o.ev_start..o.ev_end]);
+            let o2 = t.line(r, &LineIo::budget(5000));
+            let b = tokens(&t.events[o2.ev_start..o2.ev_end]);
+            v.stats.bump("c10.refused_call_resumed");
+            if a != b && w.fatal.is_none() && t.fatal.is_none() {
+                fail = Some(Violation {
+                    key: "C10:refused-call:frames-disturbed".into(),
+                    detail: format!("`{}` typed after the refused `{}`: {} (after a STOP at the same place is 'expected')", r, self.bad, first_diff(&b, &a)),
+                });
+            }
+        }
+        if let Some(f) = w.fatal.as_ref().or(t.fatal.as_ref()) {
+            fail = Some(fatal_violation("C10", f));
+        }
+        v.violation = fail;
+        v.stats.merge(&w.stats);
+        v.stats.merge(&t.stats);
+        v.instr = w.total_instr + t.total_instr;
+        v.sim_us = w.sim_us;
+        v.executions = 2;
+        v.fingerprint = w.log_hash ^ t.log_hash.rotate_left(9);
+        v.nontrivial = true;
+        v
+    }
+    fn shrink(&self) -> Vec<Box<dyn Case>> {
+        let mut out: Vec<Box<dyn Case>> = vec![];
+        for i in 0..self.resume.len() {
+            if self.resume.len() > 1 {
+                let mut r = self.resume.clone();
+                r.remove(i);
+                out.push(Box::new(RefusedCallCase {
+                    resume: r,
+                    ..self.clone()
+                }));
+            }
+        }
+        if self.sched_variant != 0 {
+            out.push(Box::new(RefusedCallCase {
+                sched_variant: 0,
+                ..self.clone()
+            }));
+        }
+        out
+    }
+    fn describe(&self) -> Json {
+        obj()
+            .set("kind", "C10 refused call inside a loop / subroutine, resumed by hand; twin run with STOP in its place")
+            .set("program", program_json(&self.program(&self.bad)))
+            .set("refused_statement", self.bad.clone())
+            .set("expected_error", self.expect.clone())
+            .set("resume_lines", self.resume.clone())
+            .set("quantum_schedule_variant", self.sched_variant)
+            .build()
+    }
+}
+
+fn refused_call_case(rng: &mut Rng) -> RefusedCallCase {
+    let two = rng.pct(40);
+    let def = if two { "10 DEF FNA(X,Y)=X*2+Y" } else { "10 DEF FNA(X)=X*2" };
+    let good = if two { "FNA(I,1)" } else { "FNA(I)" };
+    let (call, expect) = match rng.below(4) {
+        0 => (if two { "FNA(I)" } else { "FNA(I,I)" }, "?ILLEGAL FUNCTION CALL"),
+        1 => (if two { "FNA(I,I+1,FNA(1,2))" } else { "FNA(FNA(I),I,3)" }, "?ILLEGAL FUNCTION CALL"),
+        2 => ("FNZ(I)", "?UNDEFINED USER FUNCTION"),
+        _ => ("FNZ%(I,\"a\",2)", "?UNDEFINED USER FUNCTION"),
+    };
+    let bad = match rng.below(3) {
+        0 => format!("PRINT {}", call),
+        1 => format!("Q={}", call),
+        _ => format!("Q!={}:PRINT \"NOT HERE\"", call),
+    };
+    let n = 2 + rng.below(3);
+    let at = 1 + rng.below(n);
+    let (lines, resume): (Vec<String>, Vec<String>) = match rng.below(4) {
+        0 => (
+            vec![
+                def.to_string(),
+                format!("20 FOR I=1 TO {}", n),
+                format!("30 IF I={} THEN {{}} ELSE PRINT {}", at, good),
+                "40 NEXT I".to_string(),
+                "50 PRINT \"DONE\"".to_string(),
+            ],
+            vec![rng.pick(&["NEXT I", "NEXT"]).to_string()],
+        ),
+        1 => (
+            vec![
+                def.to_string(),
+                "20 I=3:GOSUB 100:PRINT \"BACK\":END".to_string(),
+                "100 {}".to_string(),
+                "110 PRINT \"SUB\":RETURN".to_string(),
+            ],
+            vec!["RETURN".to_string()],
+        ),
+        2 => (
+            vec![
+                def.to_string(),
+                "20 GOSUB 100:PRINT \"BACK\":END".to_string(),
+                format!("100 FOR I=1 TO {}", n),
+                format!("110 IF I={} THEN {{}}", at),
+                format!("120 PRINT {};:NEXT I", good),
+                "130 PRINT \"SUB\":RETURN".to_string(),
+            ],
+            if rng.pct(50) { vec!["NEXT I".to_string()] } else { vec!["RETURN".to_string()] },
+        ),
+        _ => (
+            vec![
+                def.to_string(),
+                format!("20 FOR J=1 TO 2:FOR I=1 TO {}", n),
+                format!("30 IF I={} AND J=1 THEN {{}}", at),
+                format!("40 PRINT {};J;:NEXT I,J", good),
+                "50 PRINT \"DONE\"".to_string(),
+            ],
+            vec![rng.pick(&["NEXT I", "NEXT J", "NEXT I,J", "NEXT"]).to_string()],
+        ),
+    };
+    RefusedCallCase {
+        lines,
+        bad,
+        expect: expect.to_string(),
+        resume,
+        sched_variant: rng.usize(7),
+        entropy: rng.next_u64(),
+    }
+}
+
 impl Property for C10 {
     fn id(&self) -> &'static str {
         "C10"
     }
     fn generate(&self, rng: &mut Rng, tier: Tier) -> Box<dyn Case> {
+        if rng.pct(3) {
+            return Box::new(refused_call_case(rng));
+        }
         if rng.pct(2) {
             let lines: Vec<String> = match rng.below(4) {
                 0 => vec!["10 DEF FNR(X)=FNR(X)+1".into(), "20 PRINT FNR(1)".into()],
@@ -525,11 +703,37 @@ impl Property for C10 {
         let prog = gen_program(rng, cfg.clone());
         let mut case = base_case(rng, prog, "C10");
         if rng.pct(10) {
-            // DEF in direct mode is ILLEGAL DIRECT
-            case.session.push(Step::Direct(vec![Stmt::DefFn {
+            // DEF in direct mode is ILLEGAL DIRECT: alone, behind other statements, or inside IF
+            let def = Stmt::DefFn {
                 name: Var::new("Q"),
                 params: vec![Var::new("X")],
                 body: Expr::bin(BinOp::Add, Expr::var("X"), Expr::Int(1)),
+            };
+            let pr = Stmt::Print {
+                q: false,
+                items: vec![PItem::E(Expr::Int(1))],
+            };
+            let line = match rng.below(5) {
+                0..=1 => vec![def],
+                2 => vec![pr, def],
+                3 => vec![Stmt::If {
+                    cond: Expr::Int(1),
+                    goto_form: false,
+                    then: Branch::Stmts(vec![def]),
+                    els: None,
+                }],
+                _ => vec![Stmt::If {
+                    cond: Expr::Int(0),
+                    goto_form: false,
+                    then: Branch::Stmts(vec![pr]),
+                    els: Some(Branch::Stmts(vec![def])),
+                }],
+            };
+            case.session.push(Step::Direct(line));
+            // and it defined nothing
+            case.session.push(Step::Direct(vec![Stmt::Print {
+                q: false,
+                items: vec![PItem::E(Expr::Fn(Var::new("Q"), vec![Expr::Int(2)]))],
             }]));
         }
         case.session.push(Step::Direct(vec![Stmt::Run(None)]));
@@ -644,7 +848,7 @@ impl Property for C10 {
         }
     }
     fn rule(&self) -> &'static str {
-        "one evaluation = a generated program defining 2-3 user functions (1-3 parameters of Integer/Single/String type named like program variables, bodies reading globals and calling earlier functions) and calling them inside PRINT lists, subscripts, FOR headers, IF predicates, ON selectors and other calls' arguments, with planted wrong-arity / undefined-function calls, plus a session (DEF typed in direct mode, RUN, direct-mode calls with globals changed after the definition, CLEAR followed by calls, DELETE of a line followed by calls, CONT) judged by RefBASIC (parameters in a local frame, everything else global at call time); 2% of the evaluations are runaway recursion programs that must end in ?OUT OF MEMORY with the session still usable; distinct = distinct API/event log fingerprint"
+        "one evaluation = a generated program defining 2-3 user functions (1-3 parameters of Integer/Single/String type named like program variables, bodies reading globals and calling earlier functions) and calling them inside PRINT lists, subscripts, FOR headers, IF predicates, ON selectors and other calls' arguments, with planted wrong-arity / undefined-function calls, plus a session (DEF typed in direct mode, RUN, direct-mode calls with globals changed after the definition, CLEAR followed by calls, DELETE of a line followed by calls, CONT) judged by RefBASIC (parameters in a local frame, everything else global at call time); 2% of the evaluations are runaway recursion programs that must end in ?OUT OF MEMORY with the session still usable; 3% are refused calls (wrong argument count, undefined function; in PRINT or an assignment) inside a FOR loop, a subroutine or both, reported with the documented error and then resumed by hand with NEXT / RETURN, compared with a twin run that has STOP in the call's place; distinct = distinct API/event log fingerprint"
     }
     fn assumptions(&self) -> Vec<&'static str> {
         vec![
@@ -656,7 +860,7 @@ impl Property for C10 {
         ]
     }
     fn required_probes(&self) -> Vec<&'static str> {
-        vec!["reach.DEF", "c01.lines_compared", "c10.recursion_out_of_memory", "fault.pool_exhaustion"]
+        vec!["reach.DEF", "c01.lines_compared", "c10.recursion_out_of_memory", "fault.pool_exhaustion", "c10.refused_call_resumed"]
     }
 }
 
